@@ -25,6 +25,12 @@ static void cast_fn2() {}
 static void cast_fn3() {}
 static void (*const g_cast_fns[3])() = { cast_fn1, cast_fn2, cast_fn3 };      // entries 1..3 of the sandbox's function table
 
+// a sandbox function that returns a FUNCTION pointer: entry g_ret_fn_k of its function table (0 = null)
+using cast_fn_t = void (*)();
+cast_fn_t ret_fn();
+static rep_t g_ret_fn_k = 0;
+static rep_t guest_ret_fn() { return g_ret_fn_k; }
+
 long echo_opq(long (*)(long), long);
 static g_t<long> guest_echo_opq(rep_t cb, g_t<long> v)
 {
@@ -153,6 +159,15 @@ static std::string run_case(const toks_t& t)
       run(x);
     }
     out = "A " + std::to_string(res);
+  } else if (op == "retfn") {
+    // retfn <k>: the result of a sandbox call is a function pointer (C11): the tainted result designates entry k
+    g_ret_fn_k = static_cast<rep_t>(parse_u64(t.at(1)));
+    auto r = sb.invoke_sandbox_function(ret_fn);
+    uintptr_t res = reinterpret_cast<uintptr_t>(r.UNSAFE_unverified());
+    std::string who = "other:" + std::to_string(res);
+    if (res == 0) who = "null";
+    for (unsigned j = 0; j < 3; j++) if (res == reinterpret_cast<uintptr_t>(g_cast_fns[j])) who = "fn" + std::to_string(j + 1);
+    out = "A " + who;
   } else if (op == "pcastfn") {
     // pcastfn <k> <T|V> <void|char|fn2>: a FUNCTION pointer (entry k of the sandbox's function table, 0 = null), held in
     // application memory or in a sandbox cell, cast across the function / data boundary (or to another function type):
